@@ -39,3 +39,11 @@ theorem C17_gen_tickcounter_update (i : Nat) (e : Env) (w : Store) (d : Int) (c 
 
 theorem C17_gen_tickcounter_initialise (e : Env) (d : Int) (c : Status) (n : Int) :
     leafInit e (.tickCounter d c n) = .tickCounter d c Gen.TickCounter_initialise := rfl
+
+theorem C17_gen_timer_update (i : Nat) (e : Env) (w : Store) (d fin : Int) :
+    leafUpdate i e w (.timer d fin) = .ok (.timer d fin, Gen.Timer_update fin e.now, w) := by
+  simp only [leafUpdate, Gen.Timer_update, pure, Except.pure]
+  by_cases h : e.now > fin <;> simp [h]
+
+theorem C17_gen_timer_initialise (e : Env) (d fin : Int) :
+    leafInit e (.timer d fin) = .timer d (Gen.Timer_initialise d e.now) := rfl
